@@ -19,8 +19,9 @@ import traceback
 from . import build, run
 
 VERIF = build.VERIF
-EVIDENCE_DIR = os.path.join(VERIF, "evidence")
-REPLAY_DIR = os.path.join(VERIF, "replays")
+_OUT = os.environ.get("VERIF_OUT") or VERIF     # mutant self-tests redirect evidence/replays
+EVIDENCE_DIR = os.path.join(_OUT, "evidence")
+REPLAY_DIR = os.path.join(_OUT, "replays")
 FINDINGS_FILE = os.path.join(VERIF, "known_findings.json")
 
 HELD, VIOLATED, INCONCLUSIVE = "held", "violated", "inconclusive"
@@ -42,7 +43,7 @@ class Case:
     """Verdict of one evaluated case (= one or a few real executions judged by an oracle)."""
 
     def __init__(self, status=HELD, key=None, nontrivial=False, sig=None, summary=None,
-                 witness=None, sample=None, evals=1, counters=None, sets=None):
+                 witness=None, sample=None, evals=1, counters=None, sets=None, bulk=None):
         self.status = status
         self.key = key            # canonical identity of the case (for distinct counting)
         self.nontrivial = nontrivial
@@ -53,6 +54,9 @@ class Case:
         self.evals = evals        # real executions behind this case
         self.counters = counters or {}
         self.sets = sets or {}    # name -> iterable of strings ("distinct X observed")
+        # a held Case may stand for many cases already folded by the worker:
+        # {"cases": n, "distinct": d, "nontrivial": t} (distinct within the job; jobs never overlap)
+        self.bulk = bulk
 
 
 class Ctx:
@@ -211,6 +215,7 @@ def _run(mod, modname, ctx, pid, args, t0, build_notes):
     agg = {
         "evals": 0, "cases": 0, "keys": set(), "nontrivial_keys": set(), "counters": {}, "sets": {},
         "samples": [], "inconclusive": [], "violations": [], "jobs_done": 0, "jobs_total": len(jobs),
+        "bulk_distinct": 0, "bulk_nontrivial": 0,
     }
     nworkers = max(1, min(args.jobs, len(jobs)))
     pool = multiprocessing.Pool(nworkers, initializer=_winit,
@@ -220,8 +225,19 @@ def _run(mod, modname, ctx, pid, args, t0, build_notes):
         for cases, _dt in pool.imap_unordered(_wrun, jobs, chunksize=1):
             agg["jobs_done"] += 1
             for c in cases:
-                agg["cases"] += 1
                 agg["evals"] += c.evals
+                if c.bulk:
+                    agg["cases"] += c.bulk["cases"]
+                    agg["bulk_distinct"] += c.bulk["distinct"]
+                    agg["bulk_nontrivial"] += c.bulk["nontrivial"]
+                    for n, v in c.counters.items():
+                        agg["counters"][n] = agg["counters"].get(n, 0) + v
+                    for n, vs in c.sets.items():
+                        agg["sets"].setdefault(n, set()).update(vs)
+                    if c.sample is not None and len(agg["samples"]) < 4:
+                        agg["samples"].append(c.sample)
+                    continue
+                agg["cases"] += 1
                 k = c.key or h([agg["cases"]])
                 if c.status != INCONCLUSIVE:
                     agg["keys"].add(k)
@@ -270,8 +286,8 @@ def _run(mod, modname, ctx, pid, args, t0, build_notes):
     coverage = {
         "evaluations": agg["evals"],
         "cases": agg["cases"],
-        "distinct_cases": len(agg["keys"]),
-        "distinct_nontrivial": len(agg["nontrivial_keys"]),
+        "distinct_cases": len(agg["keys"]) + agg["bulk_distinct"],
+        "distinct_nontrivial": len(agg["nontrivial_keys"]) + agg["bulk_nontrivial"],
         "rule": mod.RULE,
         "samples": agg["samples"] or [{"note": "no sample recorded"}],
         "counters": counters,
@@ -294,7 +310,7 @@ def _run(mod, modname, ctx, pid, args, t0, build_notes):
     fin = getattr(mod, "finalize", None)
     if fin:
         problems += list(fin(agg, tier, coverage) or [])
-    if len(agg["nontrivial_keys"]) < 2:
+    if len(agg["nontrivial_keys"]) + agg["bulk_nontrivial"] < 2:
         problems.append("fewer than 2 distinct non-trivial cases observed")
     if len(agg["inconclusive"]) > max(3, agg["cases"] // 20):
         problems.append("%d of %d cases inconclusive" % (len(agg["inconclusive"]), agg["cases"]))
@@ -303,7 +319,8 @@ def _run(mod, modname, ctx, pid, args, t0, build_notes):
     write_evidence(pid, tier, seed, mod.LEVEL, coverage, list(mod.ASSUMPTIONS), wall, len(unknown))
     print("%s %s seed=%d: %d executions, %d cases (%d distinct, %d non-trivial), %d inconclusive, "
           "%d known-finding cases, %d violations, %.1fs%s" % (
-              pid, tier, seed, agg["evals"], agg["cases"], len(agg["keys"]), len(agg["nontrivial_keys"]),
+              pid, tier, seed, agg["evals"], agg["cases"], len(agg["keys"]) + agg["bulk_distinct"],
+              len(agg["nontrivial_keys"]) + agg["bulk_nontrivial"],
               len(agg["inconclusive"]), sum(n for _, n in known_hit.values()), len(unknown), wall,
               " (budget cut after %d/%d jobs)" % (agg["jobs_done"], agg["jobs_total"]) if cut else ""))
     if distinct_sets:
